@@ -5,3 +5,8 @@ pub assume_specification<T, U, D: FnOnce() -> U, F: FnOnce(T) -> U>[Option::<T>:
 pub assume_specification<T, E, U, F: FnOnce(T) -> Result<U, E>>[Result::<T, E>::and_then](x: Result<T, E>, f: F) -> (r: Result<U, E>)
     requires x is Ok ==> f.requires((x->Ok_0,)),
     ensures match x { Ok(v) => f.ensures((v,), r), Err(e) => r == Err::<U, E>(e) };
+pub assume_specification<T, U, F: FnOnce(T) -> U>[Option::<T>::map_or](o: Option<T>, default: U, f: F) -> (r: U)
+    requires o is Some ==> f.requires((o->Some_0,)),
+    ensures o is None ==> r == default, o is Some ==> f.ensures((o->Some_0,), r);
+pub assume_specification<T>[std::mem::replace](dest: &mut T, src: T) -> (r: T)
+    ensures r == *old(dest), *final(dest) == src;
